@@ -122,3 +122,60 @@ Theorem C06_codec_roundtrip :
     len_buckets st <= 48 /\
     N.of_nat (length (Exec.encode st)) = 9 + 40 * len_buckets st.
 Proof. exact codec_roundtrip. Qed.
+
+(* ------------------------------------------------------------------------- *)
+(* "the secrets and next commitment points it sends follow its own derivation
+   chain without gaps or repeats" -- slot model (SlotModel.v): a run is ANY
+   sequence of outgoing slots (open/accept, channel_ready first or RE-SENT at
+   any later time, fresh revoke_and_ack, retransmitted revoke_and_ack,
+   channel_reestablish) that the model allows, of any length.  The model is
+   tied to the real messages by SlotExec.v (tie only: the theorems are about
+   the index discipline, the harness checks that lnd's messages carry exactly
+   these indices of the chain recomputed from the producer root). *)
+From LV Require Import Shachain.SlotModel Shachain.SlotProofs.
+
+(* the distinct POINT indices handed out, in order of first appearance, are
+   exactly 0,1,2,...: no gap, whatever is re-sent in between *)
+Theorem C06_own_points_no_gap :
+  forall (es : list slot) (s : st) (os : list out),
+    run st0 es = Some (s, os) ->
+    firsts (points os) = seqN 0 (N.to_nat (pfrontier s)).
+Proof. exact own_points_no_gap. Qed.
+
+(* the distinct SECRET indices released, in order of first appearance, are
+   exactly 0,1,...,n-1 (n = number of fresh revocations) *)
+Theorem C06_own_secrets_no_gap :
+  forall (es : list slot) (s : st) (os : list out),
+    run st0 es = Some (s, os) ->
+    firsts (secrets os) = seqN 0 (N.to_nat (revoked s)).
+Proof. exact own_secrets_no_gap. Qed.
+
+(* nothing beyond the frontier ever leaves: every point index is < n+2 (< 1
+   before channel_ready), every secret index < n: the secret of the current,
+   not yet revoked commitment n is never in any message *)
+Theorem C06_own_chain_bounded :
+  forall (es : list slot) (s : st) (os : list out),
+    run st0 es = Some (s, os) ->
+    (forall x, In x (points os) -> x < pfrontier s) /\
+    (forall x, In x (secrets os) -> x < revoked s).
+Proof. exact own_chain_bounded. Qed.
+
+(* the slot -> index function at ANY position of ANY run, and: a slot that must
+   be fresh (open/accept, the first channel_ready, a fresh revoke_and_ack) never
+   repeats a point handed out earlier; a re-sent channel_ready carries index 1
+   however far the channel has advanced *)
+Theorem C06_slot_index :
+  forall (es1 : list slot) (e : slot) (es2 : list slot) (s : st) (os : list out),
+    run st0 (es1 ++ e :: es2) = Some (s, os) ->
+    exists s1 os1 o os2,
+      run st0 es1 = Some (s1, os1) /\ os = os1 ++ o :: os2 /\
+      o = match e with
+          | SOpen => (None, 0)
+          | SReady => (None, 1)
+          | SRevoke => (Some (revoked s1), revoked s1 + 2)
+          | SRetransmit => (Some (revoked s1 - 1), revoked s1 + 1)
+          | SReestablish => (None, revoked s1)
+          end /\
+      ((e = SOpen \/ e = SRevoke \/ (e = SReady /\ ready s1 = false)) ->
+       forall x, In x (points os1) -> x <> snd o).
+Proof. exact slot_index. Qed.
